@@ -7,6 +7,7 @@ func init() {
 	consumerShapes = append(consumerShapes, typePositionShapes...)
 	rangeShapes = append(rangeShapes, rangeShapes7...)
 	rangeShapes = append(rangeShapes, scopingShapes...)
+	delegationShapes = append(delegationShapes, delegationShapes7...)
 	bystanderShapes = append(bystanderShapes, bystanderShapes7...)
 	injections = append(injections, injections7...)
 	closureInGeneratorShapes = append(closureInGeneratorShapes, closureInGeneratorShapes7...)
@@ -652,4 +653,78 @@ $GEN{$NG(a int)}{int}{
 	}
 	$RET
 }`, entries: []*Entry{drive("$NG", "int", 1, nil)}},
+}
+
+// ---- delegation (C05) ------------------------------------------------------------------------------
+
+var delegationShapes7 = []shape{
+	// statements the compiler leaves as they are (yield-free native loops with their own break/continue, switches with break,
+	// closures) in front of / between / inside the loop around a delegation: whatever they do, the delegation that follows runs
+	{name: "yieldfrom-after-native-statements-with-their-own-break-continue", tags: []string{"yieldfrom"}, decls: `
+$GEN{$NPart(a, n int)}{int}{
+	for i := 0; i < n; i++ {
+		tr.Ev(900, a, i)
+		$YIELD{a*10 + i}
+	}
+	$RET
+}
+
+func $NFirst[S ~[]int](xs S, stop int) (n int) {
+	for _, x := range xs {
+		if x == stop {
+			break
+		}
+		n++
+	}
+	return
+}
+
+$GEN{$NG(a int)}{int}{
+	arr := [4]int{a, a + 1, a + 2, a + 3}
+	sum := 0
+	for i, v := range &arr {
+		if i == 1 {
+			continue
+		}
+		if i == 3 {
+			break
+		}
+		sum += v
+	}
+	tr.Ev(1, sum)
+	$YFROM{$NPart(sum, 2)}
+	for k := 0; k < 2; k++ {
+		for _, v := range &arr {
+			if v > a+k {
+				break
+			}
+			sum++
+		}
+		switch {
+		case sum%2 == 0:
+			break
+		default:
+			sum += 100
+		}
+		$YFROM{$NPart(sum+$NFirst(arr[:], a+2), 1)}
+	}
+	$YIELD{sum}
+	$RET
+}
+
+$GEN{$NT[S ~[]int](xs S, a int)}{int}{
+	n := 0
+	for _, x := range xs {
+		if x == a {
+			continue
+		}
+		if x > a+2 {
+			break
+		}
+		n += x
+	}
+	$YFROM{$NPart(n, 2)}
+	$YIELD{n}
+	$RET
+}`, entries: []*Entry{drive("$NG", "int", 1, nil), {Name: "$NT", Kind: "drive", Call: "$P$NT([]int{0, 1, 2, 3, 4, 5}, $0)", Elem: "int", Inputs: allInputs(1, 0, 3), Scripts: []string{"std"}}}},
 }
